@@ -113,11 +113,16 @@ CHECKS = {
         text="Narrow claim, bounded-exhaustive exploration: for every package of 2 (thorough 3) modules drawn from a menu of 30 module files - 5 that do not parse (syntax error, NUL byte, inconsistent indentation, undecodable bytes, unknown coding), un-evaluable __all__/__docformat__ values, every statement form the builder special-cases (decorators, metaclass keywords, match, walrus/star targets, type aliases, async forms, except*, overloads, duplicates, bad fields, surrogates and control characters in constants and docstrings, empty file) - System.addPackage + process(), the TemplateWriter, the inventory writer and driver.main's exit status computation complete without an uncaught exception, every file is listed as a module, every unparsable file is reported by a message naming it, a healthy sibling is fully documented, and the exit status is 0, 2 or 3. Nothing is claimed for inputs outside the menu; hangs are not decided.",
         note="Trusted: CrossHair's exhaustion verdict over the choice variables; the menu in harness/c01_total.py. File-system side effects unblocked (mkdtemp only).",
     ),
+    "C10": dict(
+        level="exploration", design="DESIGN.md §8.7 (narrow claim; §4 explains why the full property is out of reach)",
+        technique="CrossHair (z3) enumerates (hostile string, place, docformat) and certifies exhaustion; each project is rendered by the real writer and every page is parsed by expat and compared structurally with a harmless twin",
+        text="Narrow claim, bounded-exhaustive exploration: 14 hostile strings (script element, attribute/event-handler injection, entity look-alikes, CDATA/comment delimiters, closing tags, control characters) x 12 places where source text reaches a page (module/function/class/attribute docstrings, param/return/raises fields, constant value, parameter default, string annotation, decorator argument, base-class subscript) x 5 docformats: every written page parses as XML (XML-illegal characters set aside), its element/attribute skeleton equals the one obtained with the same string whose < > & quotes are replaced (so the text introduced no element, attribute, script or handler), and the string is present as text. The escaping code itself (twisted, docutils, expat) is third party and is exercised, not modelled.",
+        note="Trusted: CrossHair's exhaustion verdict over the choice variables; expat as the judge of well-formedness; the menu in harness/c10_markup.py. File-system side effects unblocked (mkdtemp only).",
+    ),
 }
 
 NOT_APPLICABLE = {
     "C09": "text conservation is a property of regex tokenisers, napoleon line munging and docutils transforms on unbounded structured strings; the 3-5 symbolic characters CrossHair can carry through regex code say nothing about paragraphs, lists and literal blocks",
-    "C10": "escaping/well-formedness is done by twisted.web flattening, docutils' HTML writer and expat (third party, partly C); no pydoctor kernel carries the property, so there is nothing to encode",
 }
 
 PENDING = "check not built yet in this tree (planned in DESIGN.md; solver-based harness pending)"
